@@ -136,6 +136,17 @@ void *vf_allocate(u32 id, u64 n, u64 elem) {
 #endif
   return vf_ledger_add(id, n, p);
 }
+/* operator delete without a size (std::allocator): the block must be live and owned by the std::allocator owner id 0 */
+void vf_deallocate_unsized(void *p) {
+  vf_ndealloc_++;
+#ifndef __CPROVER__
+  hmix(0xDE1E7EULL);
+#endif
+  for (int i = 0; i < NBLK; i++) if (vf_blk[i].live && vf_blk[i].p == (u8 *)p) {
+    RT_ASSERT(vf_blk[i].id == 0, "C04: operator delete on a block that was not obtained from operator new");
+    vf_blk[i].live = 0; free(p); return; }
+  RT_ASSERT(0, "C04: deallocate of a block that is not live (unknown pointer or double free)");
+}
 void vf_deallocate(u32 id, void *p, u64 n, u64 elem) {
   (void)elem;
   vf_ndealloc_++;
@@ -148,6 +159,10 @@ void vf_deallocate(u32 id, void *p, u64 n, u64 elem) {
     vf_blk[i].live = 0; free(p); return; }
   RT_ASSERT(0, "C04: deallocate of a block that is not live (unknown pointer or double free)");
 }
+#ifndef __CPROVER__
+/* native builds of translated C: operator new/delete of std::allocator */
+u8 *vf_new_native(u64 bytes) { return (u8 *)vf_ledger_add(0, bytes, calloc(bytes ? bytes : 1, 1)); }
+#endif
 u32 vf_live_blocks(void) { u32 c = 0; for (int i = 0; i < NBLK; i++) c += vf_blk[i].live; return c; }
 u32 vf_block_is(const void *p, u64 n, u32 id) {
   for (int i = 0; i < NBLK; i++)
@@ -231,7 +246,7 @@ u32 vf_tr_count(u32 kind) { return vf_cnt[kind < 6 ? kind : 0]; }
 
 #ifdef VF_NATIVE_CXX
 /* build C (real C++ harness): generic element layout {val, st, touch} */
-struct vf_tr_generic { u32 val, st, touch; };
+struct vf_tr_generic { u32 val, st, touch, pad_; };
 #define VF_HOOK_ASSERT(c, m) RT_ASSERT(c, m)
 #define VF_F_VAL(p) ((p)->val)
 #define VF_F_ST(p) ((p)->st)
@@ -250,6 +265,9 @@ struct vf_tr_generic { u32 val, st, touch; };
 #include "vf_tr_impl.h"
 #define VF_TR_TYPE struct vf_tr_generic
 #define VF_TR_NAME TrC
+#include "vf_tr_impl.h"
+#define VF_TR_TYPE struct vf_tr_generic
+#define VF_TR_NAME TrA
 #include "vf_tr_impl.h"
 #endif
 
